@@ -227,9 +227,11 @@ def main():
     if meta.get("crash"):
         print("HARNESS-ERROR property=%s cannot import harness: %s" % (pid, meta["crash"][-2000:]))
         sys.exit(3)
-    if meta.get("selftest_failures"):
-        print("HARNESS-ERROR property=%s oracle self-test failed: %s" % (pid, json.dumps(meta["selftest_failures"])[:2000]))
-        sys.exit(3)
+    selftest_failed = bool(meta.get("selftest_failures"))
+    if selftest_failed:
+        # Do not stop: if the code under test is what broke the self-test, the conditions below will
+        # produce a replayed VIOLATION. Without one, the run ends as a harness error (exit 3).
+        print("SELFTEST-FAILED property=%s %s" % (pid, json.dumps(meta["selftest_failures"])[:1500]))
     conds = [c for c in meta["conditions"] if c.get(tier)]
     if a.only:
         conds = [c for c in conds if a.only in c["fn"]]
@@ -320,6 +322,9 @@ def main():
                                                                   ("spurious=%d" % len(r["spurious"])) if r["spurious"] else ""))
     if violations:
         sys.exit(1)
+    if selftest_failed:
+        print("HARNESS-ERROR property=%s oracle self-test failed and no condition was refuted" % pid)
+        sys.exit(3)
     if harness_err:
         print("HARNESS-ERROR property=%s vacuous conditions: %s" % (pid, harness_err))
         sys.exit(3)
